@@ -66,7 +66,14 @@ def r_tol_index(rep, f):
             loops = [p for p in parents if p.get("k") == "For"]
             key = "R-TOL-INDEX:%s:%s" % (b["def"], tast.render(ix))
             i = ix["i"]
-            if loops and i.get("k") == "Path" and any(i.get("id") == lp["pat"].get("id") for lp in loops):
+            def loop_index_ids(lp):
+                ids = {lp["pat"].get("id")}
+                if lp["pat"].get("k") == "PTuple" and tast.contains(lp["iter"], lambda q: q.get("k") == "MethodCall" and q.get("name") == "enumerate"):
+                    first = lp["pat"]["pats"][0]
+                    if first.get("k") == "PBind":
+                        ids.add(first["id"])
+                return ids
+            if loops and i.get("k") == "Path" and any(i.get("id") in loop_index_ids(lp) for lp in loops):
                 rep.ok("R-TOL-INDEX", key, "indexed by the component loop variable", nontrivial=False)
             elif not loops and i.get("k") == "Lit":
                 # a representative component outside any loop (Radau: Newton tolerance from rtol[0], as in RADAU5)
@@ -101,6 +108,11 @@ def r_accept_one(rep, f):
             rep.inconc("R-ACCEPT-ONE", key, "accept test not identified (%d candidates)" % len(cands))
             continue
         c, kind = cands[0]
+        if c.get("k") == "Path" and c.get("res") == "local" and c.get("ty") == "bool":
+            lets = tast.find(b["body"], lambda z: z.get("k") == "Let" and z["pat"].get("id") == c.get("id") and z.get("init") is not None)
+            assigns = tast.find(b["body"], lambda z: z.get("k") == "Assign" and z["l"].get("k") == "Path" and z["l"].get("id") == c.get("id"))
+            if len(lets) == 1 and not assigns:
+                c = lets[0]["init"]
         ok = False
         if c.get("k") == "Binary":
             lit = c["r"] if c["r"].get("k") == "Lit" else (c["l"] if c["l"].get("k") == "Lit" else None)
@@ -129,6 +141,8 @@ def make_grader(sx, facts_obj=None, extra=None):
     def atom_grade(a):
         if a in extra:
             return extra[a]
+        if a.startswith(("it#", "unk#", "elem#")) or a.startswith("proj[it#") or "proj[it#" in a[:40]:
+            return UNKNOWN
         if a.startswith("len(") or a.startswith("len["):
             return (Fraction(1), Fraction(0))
         if FRE.match(a) or a in ("Y", "YM"):
@@ -258,6 +272,8 @@ def r_grade_solvers(rep, f):
         elif ge == UNKNOWN:
             rep.note("%s grade of the accept operand not determined (opaque: %s)" % (key, sorted(set(g.unknown_atoms))[:3]))
             rep.ok("R-GRADE", key + ":partial", "no grade inconsistency found in the accept operand", nontrivial=False)
+        elif rk.imprecise_in_main(sx, hk):
+            rep.inconc("R-GRADE", key, "the accept operand is computed by a construct the interpreter cannot follow (%s)" % rk.imprecise_in_main(sx, hk)[0])
         else:
             why = g.issues[-1][1] if g.issues else ""
             rep.violation("R-GRADE", key, "the quantity compared with 1 in the accept test has grade %s%s: it changes when the state is rescaled or the system is duplicated"
@@ -312,6 +328,117 @@ def r_grade_hinit(rep, f):
 
 
 # ------------------------------------------------------------------------------------------ R-PARITY
+def parity_fn(odd, even=()):
+    """parity of a symbolic value under time reflection given the atoms assumed odd; constants are even, opaque scalar
+    functions are even, abs/sqrt/sum/comparisons are even, a join takes the common parity of its non-constant inputs"""
+    memo = {}
+
+    def par_atom(a, depth=0):
+        if a in memo:
+            return memo[a]
+        memo[a] = "even"
+        if a in odd:
+            r = "odd"
+        elif a in even:
+            r = "even"
+        elif a in DEFS and depth < 40:
+            op, xs = DEFS[a]
+            args = [x for x in xs if isinstance(x, Poly)]
+            base = op.split(":")[0]
+            if base in ("abs", "sqrt", "sum", "le", "lt", "ge", "gt", "eq", "ne", "and", "or", "not"):
+                # a sum of a `mixed` term is still mixed
+                r = "even"
+                if base == "sum" and args and par(args[0], depth + 1) == "mixed":
+                    r = "mixed"
+            elif base in ("signum", "inv", "neg", "vec", "idx", "proj", "unwrap", "armval", "Some"):
+                r = par(args[0], depth + 1) if args else "even"
+            elif base in ("phi", "widen", "max", "min", "clamp"):
+                ps = {par(x, depth + 1) for x in args if not x.is_const()}
+                r = ps.pop() if len(ps) == 1 else ("even" if not ps else "mixed")
+            elif base == "powf":
+                r = "even" if par(args[0], depth + 1) == "even" else "mixed"
+            else:
+                r = "even"
+        else:
+            r = "even"
+        memo[a] = r
+        return r
+
+    def par(p, depth=0):
+        ps = set()
+        for m, c in p.t.items():
+            k = 0
+            for a, e in m:
+                pa = par_atom(a, depth)
+                if pa == "mixed":
+                    return "mixed"
+                if pa == "odd":
+                    k += abs(e)
+            ps.add("odd" if k % 2 else "even")
+        if not ps:
+            return "even"
+        return ps.pop() if len(ps) == 1 else "mixed"
+    return par
+
+
+def r_parity_hinit(rep, f):
+    """the automatic first step under time reflection: the probe abscissa offset and the returned step are odd, the probe
+    state y + h*f0 is even (f is odd: dy/dx changes sign when x does)"""
+    fn = "methods::hinit"
+    b = f.bodies.get(fn)
+    key = "R-PARITY:%s" % fn
+    if b is None:
+        rep.inconc("R-PARITY", key, "hinit not found")
+        return
+    rep.fn(fn)
+    probes = []
+
+    class HH(Hooks):
+        def call(self, sx, node, d):
+            if d == "ivp::IVP::ode" and node["k"] == "MethodCall":
+                t = sx.eval(node["args"][0])
+                lvy = sx.lvalue(node["args"][1])
+                yb = sx.st.get(lvy[1]) if lvy[0] == "key" else None
+                probes.append((node, t, yb.get(0) if isinstance(yb, Buf) else None))
+                lv = sx.lvalue(node["args"][2])
+                if lv[0] == "key":
+                    sx.st[lv[1]] = Buf("F1", {0: Poly.atom("F1")})
+                return Poly.atom("unit")
+            return NotImplemented
+    sx = SymExec(f, fn, HH())
+    sx.bind_params()
+    ret = sx.eval(b["body"])
+    params = {p["name"] for p in b.get("params", []) if p.get("k") == "PBind"}
+    need = {"x", "posneg", "f0"}
+    if params and not need <= params:
+        rep.inconc("R-PARITY", key, "hinit's parameters %s no longer include %s: the reflection model must be revisited" % (sorted(params), sorted(need)))
+        return
+    par = parity_fn({"x", "posneg", "f0@0", "F1", "f1@0"})
+    probs = []
+    n = 0
+    if not probes:
+        rep.inconc("R-PARITY", key, "no right-hand-side probe found in hinit")
+        return
+    for node, t, yv in probes:
+        if isinstance(t, Poly):
+            n += 1
+            off = t - Poly.atom("x")
+            if not off.is_zero() and par(off) != "odd":
+                probs.append(("probe-abscissa", "the probe `%s` is made at x + (%r), an offset that is %s under time reflection: the probe does not follow the direction of integration" % (tast.render(node)[:80], off, par(off)), node))
+        if isinstance(yv, Poly):
+            n += 1
+            if par(yv) != "even":
+                probs.append(("probe-state", "the probe state is %r, which is %s under time reflection (state values must not change): the Euler step h*f0 uses a step without the direction" % (yv, par(yv)), node))
+    if isinstance(ret, Poly):
+        n += 1
+        if par(ret) != "odd":
+            probs.append(("result", "the returned step %s is %s under time reflection, it must change sign with the direction" % (repr(ret)[:200], par(ret)), b["body"]))
+    for what, msg, node in probs:
+        rep.violation("R-PARITY", "%s:%s" % (key, what), msg[:600], node.get("sp") if isinstance(node, dict) else None)
+    if not probs:
+        rep.ok("R-PARITY", key, "%d value(s) of hinit (probe abscissa, probe state, result) have the right parity under time reflection" % n)
+
+
 def r_parity(rep, f):
     """time reflection (x0, xend, x, h, direction -> their negatives): the step taken, every stage offset and the
     step proposed for the next iteration change sign (or, for a magnitude-valued step variable, do not change)"""
